@@ -10,7 +10,7 @@ RULE = ("gen_params half: Hypothesis-generated force fields in which links exist
         "pairs x residue graphs (linear/tree/ring); for every requested residue-graph edge the atom-level "
         "edges of the built molecule between the two residues are recounted from scratch and compared with "
         "the missing-link warnings in the captured log (a residue pair joined by a bond/constraint of the written file may not be reported either; one flavour has no [ link ] but one listing up to four bonds by atom number). gen_coords half: generated topologies with one "
-        "molecule whose bonds/constraints/virtual sites leave an atom or a residue unconnected (must be "
+        "molecule whose bonds/constraints/virtual sites leave an atom, a group of atoms or a residue unconnected (must be "
         "refused) or connect everything (must not be refused). non-trivial = a molecule with >=1 realised "
         "and >=1 missing edge (gen_params) or a disconnected molecule (gen_coords); distinct = spec hash")
 ASSUMPTIONS = ["log records of the polyply logger hierarchy are the warning channel",
